@@ -23,6 +23,10 @@ pub struct Meta {
     pub defused: Option<String>,
     /// number of comments the generator put in (vacuity accounting)
     pub comments: usize,
+    /// the statements that are NOT ignored, as standalone texts (C08: "everything else is still formatted")
+    pub others: Vec<String>,
+    /// F-REQ: what the generator knows about each top-level statement (C12 reference model)
+    pub req: Vec<ReqItem>,
 }
 
 #[derive(Clone, Debug)]
@@ -1263,6 +1267,369 @@ pub fn f_num() -> Vec<Case> {
     for s in &sp {
         for (pre, post) in ctxs2 {
             v.push(case("F-NUM", Dial::Core, format!("{}{}{}", pre, s, post)));
+        }
+    }
+    v
+}
+
+// ------------------------------------------------------------------------------------------------------------
+// F-IGN: ignore directives before every statement kind, regions, nesting, table fields
+// ------------------------------------------------------------------------------------------------------------
+
+pub const IGN_STMTS: &[(&str, Dial, bool)] = &[
+    // (text written with odd spacing so that formatting is visible, dialect, is a last statement)
+    ("local   x   =  1", Dial::Core, false),
+    ("x   =   y", Dial::Core, false),
+    ("f(  a,b  )", Dial::Core, false),
+    ("(f)(  a  )", Dial::Core, false),
+    ("if  a  then  b()  end", Dial::Core, false),
+    ("function  f( a )  return a  end", Dial::Core, false),
+    ("t  =  { a,b ;c }", Dial::Core, false),
+    ("local  t = {\n 1,2\n}", Dial::Core, false),
+    ("for  i=1,2  do  end", Dial::Core, false),
+    ("while  a  do  end", Dial::Core, false),
+    ("repeat  until  a", Dial::Core, false),
+    ("do  end", Dial::Core, false),
+    ("local  function  g( )  end", Dial::Core, false),
+    ("local b   =   require( 'b' )", Dial::Core, false),
+    ("x  +=  1", Dial::Luau, false),
+    ("type  T  =  { a:number }", Dial::Luau, false),
+    ("return   1", Dial::Core, true),
+    ("return   a,b", Dial::Core, true),
+];
+pub const IGN_TAILS: &[&str] = &["", ";", " -- t", "; -- t", " ;"];
+pub const IGN_DIRECTIVES: &[&str] = &["-- stylua: ignore", "--stylua: ignore", "--[[ stylua: ignore ]]", "-- stylua: ignore  "];
+
+fn defuse(text: &str) -> String {
+    text.replace("stylua: ignore", "stylua: ignorX")
+}
+
+/// statement lists with one single-statement directive, regions, nesting
+pub fn f_ign(thorough: bool) -> Vec<Case> {
+    let mut v = Vec::new();
+    let encls: &[(&str, &str, &str)] = &[("", "", ""), ("do\n", "end\n", "\t"), ("local function w()\n\tif a then\n", "\tend\nend\n", "\t\t")];
+    let neighbours: &[&str] = &["local   p  =  1", "(g)()", "q   =   2;"];
+    let stmts: Vec<&(&str, Dial, bool)> = IGN_STMTS.iter().collect();
+    for (pre, post, ind) in encls {
+        for (si, (st, dial, is_last)) in stmts.iter().enumerate() {
+            for tail in IGN_TAILS {
+                if tail.contains(';') && st.starts_with("type") {
+                    // fine: type declarations may carry a semicolon too
+                }
+                let dirs: &[&str] = if thorough || si < 4 { IGN_DIRECTIVES } else { &IGN_DIRECTIVES[..1] };
+                for dir in dirs {
+                    // position of the ignored statement among its neighbours: first, middle, last
+                    for pos in 0..3 {
+                        if *is_last && pos != 2 {
+                            continue;
+                        }
+                        for crlf in [false, true] {
+                            if crlf && !(thorough || (si < 6 && tail.is_empty())) {
+                                continue;
+                            }
+                            let mut text = String::from(*pre);
+                            let mut ignored = vec![];
+                            let mut others: Vec<String> = vec![];
+                            let mut k = 0;
+                            for slot in 0..3 {
+                                if slot == pos {
+                                    text.push_str(ind);
+                                    text.push_str(dir);
+                                    text.push('\n');
+                                    text.push_str(ind);
+                                    let a = text.len();
+                                    text.push_str(st);
+                                    // tail: `;` belongs to the statement, a trailing comment too (it is trailing trivia)
+                                    text.push_str(tail);
+                                    let b = text.len();
+                                    ignored.push((a, b));
+                                    text.push('\n');
+                                } else {
+                                    if *is_last && slot > pos {
+                                        continue;
+                                    }
+                                    let mut n = neighbours[k % neighbours.len()];
+                                    k += 1;
+                                    // a neighbour starting with `(` directly after a statement without `;` would merge with it
+                                    if n.starts_with('(') && !(slot == pos + 1 && tail.contains(';')) {
+                                        n = "local   r  =  3";
+                                    }
+                                    if slot == pos + 1 && tail.contains(';') {
+                                        n = "(g)()";
+                                    }
+                                    text.push_str(ind);
+                                    text.push_str(n);
+                                    text.push('\n');
+                                    others.push(n.to_string());
+                                }
+                            }
+                            text.push_str(post);
+                            let (text, ignored) = if crlf { to_crlf(&text, &ignored) } else { (text, ignored) };
+                            let mut c = case("F-IGN", *dial, text.clone());
+                            c.meta.ignored = ignored;
+                            c.meta.defused = Some(defuse(&text));
+                            c.meta.others = others;
+                            c.meta.comments = 1;
+                            v.push(c);
+                        }
+                    }
+                }
+            }
+        }
+    }
+    // regions: `ignore start` before statement i, `ignore end` before statement j (or never)
+    let region_stmts = ["local   x   =  1", "f(  a,b  );", "t  =  { a,b ;c } -- t", "(g)(  1  )", "x   =   y;"];
+    let n = region_stmts.len();
+    for (pre, post, ind) in encls {
+        for i in 0..n {
+            for j in (i + 1)..=n + 1 {
+                // j == n: `ignore end` after the last statement (before the block end); j == n+1: no end at all
+                let mut text = String::from(*pre);
+                let mut ignored = vec![];
+                let mut others = vec![];
+                for (k, s) in region_stmts.iter().enumerate() {
+                    if k == i {
+                        text.push_str(&format!("{}-- stylua: ignore start\n", ind));
+                    }
+                    if k == j {
+                        text.push_str(&format!("{}-- stylua: ignore end\n", ind));
+                    }
+                    text.push_str(ind);
+                    let a = text.len();
+                    text.push_str(s);
+                    let b = text.len();
+                    text.push('\n');
+                    if k >= i && k < j {
+                        ignored.push((a, b));
+                    } else {
+                        others.push(s.to_string());
+                    }
+                }
+                if j == n {
+                    text.push_str(&format!("{}-- stylua: ignore end\n", ind));
+                }
+                text.push_str(post);
+                for crlf in [false, true] {
+                    let (t2, ig2) = if crlf { to_crlf(&text, &ignored) } else { (text.clone(), ignored.clone()) };
+                    let mut c = case("F-IGN", Dial::Core, t2.clone());
+                    c.meta.ignored = ig2;
+                    c.meta.defused = Some(defuse(&t2));
+                    c.meta.others = others.clone();
+                    c.meta.comments = 2;
+                    v.push(c);
+                }
+            }
+        }
+    }
+    // a region that ends at a last statement / directive on a last statement
+    for (lead, body, ign) in [
+        ("-- stylua: ignore start\n", "return   x  ,  y", true),
+        ("-- stylua: ignore end\n", "return   x  ,  y", false),
+        ("-- stylua: ignore\n", "return   x  ,  y;", true),
+    ] {
+        for (pre, post, ind) in encls {
+            let mut text = String::from(*pre);
+            let mut ignored = vec![];
+            let mut others = vec![];
+            if !ign {
+                text.push_str(&format!("{}-- stylua: ignore start\n{}", ind, ind));
+                let a = text.len();
+                text.push_str("local   p  =  1");
+                ignored.push((a, text.len()));
+                text.push('\n');
+            } else {
+                text.push_str(&format!("{}local   p  =  1\n", ind));
+                others.push("local   p  =  1".to_string());
+            }
+            text.push_str(ind);
+            text.push_str(lead.trim_end());
+            text.push('\n');
+            text.push_str(ind);
+            let a = text.len();
+            text.push_str(body);
+            if ign {
+                ignored.push((a, text.len()));
+            } else {
+                others.push(body.to_string());
+            }
+            text.push('\n');
+            text.push_str(post);
+            let mut c = case("F-IGN", Dial::Core, text.clone());
+            c.meta.ignored = ignored;
+            c.meta.defused = Some(defuse(&text));
+            c.meta.others = others;
+            c.meta.comments = 2;
+            v.push(c);
+        }
+    }
+    // ignored table fields
+    for dir in IGN_DIRECTIVES {
+        for (field, other) in [("a   =  1", "b  = 2"), ("[ 'k' ]  =  f( 1 )", "c=3"), ("{ 1,2 }", "d  =  4"), ("f( a,b )", "e = 5")] {
+            for pos in 0..2 {
+                let mut text = String::from("local t = {\n");
+                let mut ignored = vec![];
+                for slot in 0..2 {
+                    if slot == pos {
+                        text.push_str(&format!("\t{}\n\t", dir));
+                        let a = text.len();
+                        text.push_str(field);
+                        ignored.push((a, text.len()));
+                        text.push_str(",\n");
+                    } else {
+                        text.push_str(&format!("\t{},\n", other));
+                    }
+                }
+                text.push_str("}\n");
+                let mut c = case("F-IGN", Dial::Core, text.clone());
+                c.meta.ignored = ignored;
+                c.meta.defused = Some(defuse(&text));
+                c.meta.others = vec![];
+                c.meta.comments = 1;
+                v.push(c);
+            }
+        }
+    }
+    v
+}
+
+fn to_crlf(text: &str, spans: &[(usize, usize)]) -> (String, Vec<(usize, usize)>) {
+    let mut out = String::new();
+    let mut map = vec![0usize; text.len() + 1];
+    for (i, ch) in text.char_indices() {
+        map[i] = out.len();
+        if ch == '\n' {
+            out.push('\r');
+        }
+        out.push(ch);
+    }
+    map[text.len()] = out.len();
+    // positions inside multi-byte characters are never span ends here (ASCII only)
+    let spans2 = spans.iter().map(|(a, b)| (map[*a], map[*b])).collect();
+    (out, spans2)
+}
+
+// ------------------------------------------------------------------------------------------------------------
+// F-REQ: top-level require / GetService blocks
+// ------------------------------------------------------------------------------------------------------------
+
+#[derive(Clone, Debug, PartialEq)]
+pub enum ReqKind {
+    Require,
+    GetService,
+    Other,
+}
+#[derive(Clone, Debug, PartialEq)]
+pub enum Sep {
+    None,
+    Blank,
+    Comment,
+}
+#[derive(Clone, Debug)]
+pub struct ReqItem {
+    pub kind: ReqKind,
+    pub name: String,
+    pub ignored: bool,
+    pub sep_before: Sep,
+}
+
+/// element alphabet: (text, kind, name, dialect)
+pub const REQ_ELEMS: &[(&str, u8, &str, Dial)] = &[
+    ("local B = require(\"B\")", 0, "B", Dial::Core),
+    ("local a   = require(\"a1\")", 0, "a", Dial::Core),
+    ("local a = require(\"a2\")", 0, "a", Dial::Core),
+    ("local b   =   require( \"b\" ); -- t", 0, "b", Dial::Core),
+    ("local A = require(\"A\") -- t", 0, "A", Dial::Core),
+    ("local S = game:GetService(\"S\")", 1, "S", Dial::Core),
+    ("local R = game:GetService(\"R\");", 1, "R", Dial::Core),
+    ("local c = require(\"c\") :: T", 0, "c", Dial::Luau),
+    ("local x, y = require(\"x\")", 2, "", Dial::Core),
+    ("local n = 1", 2, "", Dial::Core),
+    ("f()", 2, "", Dial::Core),
+];
+/// things that may stand before an element
+pub const REQ_PRE: &[&str] = &["", "\n", "-- c\n", "-- stylua: ignore\n", "-- stylua: ignore start\n", "-- stylua: ignore end\n", "--[[ stylua: ignore ]] ", "--[[c]] "];
+
+pub fn f_req(n: usize, thorough: bool) -> Vec<Case> {
+    let mut v = Vec::new();
+    let elems: Vec<&(&str, u8, &str, Dial)> = if thorough { REQ_ELEMS.iter().collect() } else { REQ_ELEMS.iter().filter(|e| !matches!(e.0, "f()" | "local R = game:GetService(\"R\");")).collect() };
+    // sequences of (element, pre) ; `pre` other than "" only at one position at a time in the quick tier (1 deviation),
+    // every combination in the thorough tier for n <= 3
+    fn rec(elems: &[&(&str, u8, &str, Dial)], n: usize, cur: &mut Vec<usize>, out: &mut Vec<Vec<usize>>) {
+        if cur.len() >= 2 {
+            out.push(cur.clone());
+        }
+        if cur.len() == n {
+            return;
+        }
+        for i in 0..elems.len() {
+            cur.push(i);
+            rec(elems, n, cur, out);
+            cur.pop();
+        }
+    }
+    let mut seqs = vec![];
+    rec(&elems, n, &mut vec![], &mut seqs);
+    for seq in &seqs {
+        // at least two require-kind statements, otherwise nothing can move
+        if seq.iter().filter(|i| elems[**i].1 != 2).count() < 2 {
+            continue;
+        }
+        let mut pres: Vec<Vec<usize>> = vec![vec![0; seq.len()]];
+        for pos in 0..seq.len() {
+            for p in 1..REQ_PRE.len() {
+                let mut x = vec![0; seq.len()];
+                x[pos] = p;
+                pres.push(x.clone());
+                if thorough && seq.len() <= 3 {
+                    for pos2 in (pos + 1)..seq.len() {
+                        for p2 in 1..REQ_PRE.len() {
+                            let mut y = x.clone();
+                            y[pos2] = p2;
+                            pres.push(y);
+                        }
+                    }
+                }
+            }
+        }
+        for pre in pres {
+            let mut text = String::new();
+            let mut items = vec![];
+            let mut dial = Dial::Core;
+            let mut region = false;
+            for (k, ei) in seq.iter().enumerate() {
+                let e = elems[*ei];
+                dial = dial.max(e.3);
+                let p = REQ_PRE[pre[k]];
+                text.push_str(p);
+                let mut single = false;
+                let sep = match p {
+                    "" | "--[[ stylua: ignore ]] " | "--[[c]] " => Sep::None,
+                    "\n" => Sep::Blank,
+                    _ => Sep::Comment,
+                };
+                match p {
+                    "-- stylua: ignore\n" | "--[[ stylua: ignore ]] " => single = true,
+                    "-- stylua: ignore start\n" => region = true,
+                    "-- stylua: ignore end\n" => region = false,
+                    _ => {}
+                }
+                text.push_str(e.0);
+                text.push('\n');
+                items.push(ReqItem {
+                    kind: match e.1 {
+                        0 => ReqKind::Require,
+                        1 => ReqKind::GetService,
+                        _ => ReqKind::Other,
+                    },
+                    name: e.2.to_string(),
+                    ignored: single || region,
+                    sep_before: if k == 0 { Sep::Blank } else { sep },
+                });
+            }
+            let mut c = case("F-REQ", dial, text);
+            c.meta.req = items;
+            c.meta.comments = 1;
+            v.push(c);
         }
     }
     v
